@@ -108,3 +108,45 @@ Proof.
     simpl. repeat split; auto. exists (u1 ++ u2). rewrite app_assoc, delivered_app, D2. auto.
 Qed.
 Print Assumptions calls_correct.
+
+(* ---- progress: whatever failures are interleaved, enough (here: single-byte) deliveries make the call complete ---- *)
+Definition unit_read (e : ev) : bool := match e with ReadErr | ReadZero => true | ReadData [_] => true | _ => false end.
+Fixpoint deliveries (evs : list ev) : nat := match evs with [] => 0 | ReadData _ :: r => S (deliveries r) | _ :: r => deliveries r end.
+
+Lemma CHUNK_pos : 1 <= CHUNK.
+Proof. Local Transparent CHUNK. unfold CHUNK. change 1 with (2 ^ 0). apply Nat.pow_le_mono_r; lia. Local Opaque CHUNK. Qed.
+
+Theorem read_progress : forall evs s remaining out, forallb unit_read evs = true -> remaining <= deliveries evs ->
+  read_loop evs s remaining out <> None.
+Proof.
+  induction evs as [|e evs IH]; intros s remaining out Hu Hd.
+  - simpl in Hd. assert (remaining = 0) by lia. subst. simpl. discriminate.
+  - destruct remaining as [|rem]; [simpl; discriminate|].
+    cbn [forallb] in Hu. apply andb_true_iff in Hu. destruct Hu as [He Hu].
+    cbn [read_loop]. destruct e as [| | | |bs]; try discriminate.
+    + apply IH; [exact Hu | simpl in Hd; exact Hd].
+    + apply IH; [exact Hu | simpl in Hd; exact Hd].
+    + destruct bs as [|b [|b2 bs]]; try discriminate. cbn [length].
+      pose proof CHUNK_pos. replace (1 <=? 1) with true by reflexivity.
+      replace (1 <=? Nat.min (S rem) CHUNK) with true by (symmetry; apply Nat.leb_le; apply Nat.min_glb; lia).
+      cbn [andb]. apply IH; [exact Hu | simpl in Hd; lia].
+Qed.
+
+Theorem open_progress : forall k rest s, fd_open s = false ->
+  exists s', open_loop (repeat OpenFail k ++ OpenOk :: rest) s = Some (s', rest) /\ fd_open s' = true /\ opens_ok s' = S (opens_ok s) /\ sleeps s' = k + sleeps s.
+Proof.
+  induction k as [|k IH]; intros rest s Hf.
+  - cbn [repeat app open_loop]. rewrite Hf. eexists. split; [reflexivity|]. cbn. repeat split; reflexivity.
+  - cbn [repeat app open_loop]. rewrite Hf.
+    destruct (IH rest {| fd_open := false; opens_ok := opens_ok s; sleeps := S (sleeps s); asked := asked s |} eq_refl) as (s' & E & F & O & Sl).
+    exists s'. split; [exact E|]. cbn in *. repeat split; auto. lia.
+Qed.
+
+(* a whole call completes on any script of the form: k failed opens, one successful open, then failures and single-byte deliveries *)
+Corollary call_progress : forall k reads s xlen, fd_open s = false -> forallb unit_read reads = true -> xlen <= deliveries reads ->
+  randombytes (repeat OpenFail k ++ OpenOk :: reads) s xlen <> None.
+Proof.
+  intros k reads s xlen Hf Hu Hd. unfold randombytes.
+  destruct (open_progress k reads s Hf) as (s' & E & _). rewrite E. apply read_progress; assumption.
+Qed.
+Print Assumptions read_progress.
